@@ -67,7 +67,9 @@ def rule_textedit(check):
                 check.bad(R, key, hir.loc(n), "%s() is applied to the printed program text: a position-blind edit can alter string literals or regular expressions that merely look like the target" % n["method"])
             else:
                 check.ok(R, key, hir.loc(n), "%s() on the printed text is a borrow/conversion" % n["method"])
-    check.floor(R, "uses of the printed text inspected", n_recv, 1)
+    # (no floor here: a tree that calls no method on the printed text has nothing to edit it with; that the
+    # text is tracked at all is established by the trailer-prefix clause below)
+    check.ok(R, R + "/uses", "-", "%d method calls on the printed text inspected" % n_recv)
     # what print_js returns: the code itself or the trailer format whose first piece is the code
     pj = prog.fn("rewriter::print_js")
     fm = [(n, p) for n, p in fmtargs.text_assemblies(prog, pj) if any(k == "lit" and "base64" in v for k, v in p)]
@@ -96,28 +98,47 @@ def rule_fallback(check):
     prog = check.prog
     pv = Prov(prog)
     pj = prog.fn("rewriter::print_js")
-    enc = [n for n in hir.calls_in(pj.body, name="encode")] + [n for n in hir.calls_in(pj.body, name="encode_string")]
+    enc = [(g_, n) for g_ in prog.flat(pj, 2) for nm_ in ("encode", "encode_string") for n in hir.calls_in(g_.body, name=nm_)]
     check.floor(R, "base64 encode sites", len(enc), 1)
-    for n in enc:
-        os_ = pv.origins(pj, hir.call_args(n)[1])
-        kinds = set()
+    for g_, n in enc:
+        # what is encoded, seen from print_js: the result of chain_source_maps(source_map, original.source, ..)
+        # when there is one, else the `source_map` parameter - however the choice is written (unwrap_or_else,
+        # map_or, match ..)
+        os_ = Prov(prog, opaque={"chain_source_maps"}).origins_upto(pj, g_, hir.call_args(n)[1])
+        roots = set()
         for r, p in os_:
-            if r[0] == "param" and r[2] == 1:
-                kinds.add("plain rewrite map (param source_map)")
-            elif r[0] in ("call", "ctor", "residual", "applied") or True:
-                kinds.add(origin_str((r, p)))
-        un = [x for x in hir.calls_in(pj.body, name="unwrap_or_else")]
-        ok = False
-        for u in un:
-            recv = hir.peel(hir.call_args(u)[0])
-            if hir.is_call(recv) and hir.callee_name(recv) == "chain_source_maps":
-                a = hir.call_args(recv)
-                same_map = hir.local_of(a[0]) and pj.bindings()[hir.local_of(a[0])[0]]["origin"][:2] == ("param", 1)
-                orig = (hir.place(a[1]) or "").endswith(".source")
-                cl = hir.peel(hir.call_args(u)[1])
-                fb = cl.get("k") == "Closure" and all(r[0] == "param" and r[2] == 1 for r, p in pv.origins(pj, cl["body"]))
-                ok = bool(same_map and orig and fb)
-        check.expect(ok, R, R + "/final-map", hir.loc(n), "final map = chain_source_maps(source_map, original.source, config) or else source_map", "final map is not `chain_source_maps(..).unwrap_or_else(|| source_map)`")
+            if r[0] == "param" and r[1] == pj.def_path and r[2] == 1:
+                roots.add("param")
+            elif r[0] == "call" and r[1].split("::")[-1] == "chain_source_maps":
+                roots.add("chained")
+            elif r[0] in ("ctor-applied", "applied", "ctor") and any(w in str(r[1]) for w in ("Cow::", "String::from", "Some", "Option")):
+                continue  # wrappers (Cow::Owned / Cow::Borrowed / String::from) of one of the two
+            elif r[0] in ("call",) and r[1].split("::")[-1] in ("from", "into", "to_string", "to_owned", "into_owned", "clone", "branch", "as_ref", "as_str", "deref"):
+                continue
+            elif r[0] == "residual":
+                continue
+            else:
+                roots.add(origin_str((r, p)))
+        chains = [c_ for c_ in hir.calls_in(pj.body, name="chain_source_maps")]
+        args_ok = False
+        for c_ in chains:
+            a = hir.call_args(c_)
+            same_map = hir.local_of(a[0]) and pj.bindings()[hir.local_of(a[0])[0]]["origin"][:2] == ("param", 1)
+            orig = (hir.place(a[1]) or "").endswith(".source")
+            args_ok = bool(same_map and orig)
+        # the choice written with combinators Prov does not open (`.map_or(Cow::Borrowed(source_map), Cow::Owned)`):
+        # read it off the initialiser that contains the chain call
+        for c_ in chains:
+            for b_ in pj.bindings().values():
+                if b_["origin"][0] == "let" and b_["origin"][1] is not None and any(x is c_ for x in hir.walk(b_["origin"][1])):
+                    inside = {id(x) for x in hir.walk(c_)}
+                    for x in hir.walk(b_["origin"][1]):
+                        l_ = hir.local_of(x) if id(x) not in inside and x.get("k") == "Path" else None
+                        if l_ and pj.bindings().get(l_[0], {}).get("origin", ("",))[:2] == ("param", 1):
+                            roots.add("param")
+        uses_chain = "chained" in roots or any(any(x is c_ for x in hir.walk(b_["origin"][1])) for c_ in chains for b_ in pj.bindings().values() if b_["origin"][0] == "let" and b_["origin"][1] is not None)
+        ok = len(chains) == 1 and args_ok and "param" in roots and uses_chain and roots <= {"param", "chained"}
+        check.expect(ok, R, R + "/final-map", hir.loc(n), "final map = chain_source_maps(source_map, original.source, config) or else source_map", "the encoded map is not `chain_source_maps(source_map, original.source, ..)` falling back to `source_map` (it comes from %s)" % sorted(roots))
     cs = prog.fn("rewriter::chain_source_maps")
     # the composition runs exactly under: chaining configured, original map present, rewrite map parsed -
     # whether written with bool::then / and_then closures, `?`, or guard clauses
@@ -320,6 +341,8 @@ def rule_trailer(check):
         for n, pieces in fm:
             if any(k == "lit" and "base64" in v for k, v in pieces):
                 sites.append((f, n, pieces))
+    # a helper whose text was spliced into its caller's is not a second site
+    sites = [s_ for s_ in sites if s_[0].def_path not in fmtargs.INLINED] or sites
     check.expect(len(sites) == 1, R, R + "/single-site", "-", "one trailer emission site", "%d trailer emission sites" % len(sites))
     js = jsast.JsFile(prog.js, "js/source-map/index.js")
     js_start = js.const_string("SOURCE_MAP_INLINE_LINE_START")
